@@ -1125,7 +1125,8 @@ func (x *Exec) convert(v Value, from, to types.Type) Value {
 			for i := 0; i < s.len; i++ {
 				r := termOf(s.get(i))
 				if !r.isConst() {
-					panic(unsupported{"symbolic []rune to string"})
+					out = append(out, x.encodeRune(r)...)
+					continue
 				}
 				for _, c := range []byte(string(rune(int32(r.k)))) {
 					out = append(out, mkBV(8, uint64(c)))
@@ -1143,7 +1144,17 @@ func (x *Exec) convert(v Value, from, to types.Type) Value {
 				if x.ps.decide(lt, "string(rune)") {
 					return &Str{b: []*Term{mkExtract(s, 0, 8)}}
 				}
-				panic(unsupported{"string(symbolic non-ASCII rune)"})
+				if s.w < 32 {
+					s = mkZExt(s, 32)
+				} else if s.w > 32 {
+					// out-of-range values become U+FFFD
+					inRange := mkCmp(OpUle, s, mkBV(s.w, 0x10FFFF))
+					if !x.ps.decide(inRange, "string(rune) range") {
+						return strConst("\uFFFD")
+					}
+					s = mkExtract(s, 0, 32)
+				}
+				return &Str{b: x.encodeRune(s)}
 			}
 			return strConst(string(rune(int32(signExt(s.k, s.w)))))
 		}
@@ -1161,7 +1172,14 @@ func (x *Exec) convert(v Value, from, to types.Type) Value {
 			}
 			cs, okc := s.concrete()
 			if !okc {
-				panic(unsupported{"symbolic string to []rune"})
+				var rs []Value
+				dec := x.findFunc("unicode/utf8", "DecodeRuneInString")
+				for pos := 0; pos < len(s.b); {
+					tu := x.callFunction(dec, []Value{&Str{b: s.b[pos:]}}, nil, nil).(Tuple)
+					rs = append(rs, tu[0])
+					pos += int(x.ps.concretize(termOf(tu[1]), "rune size"))
+				}
+				return Slice{o: newObj(&Agg{e: rs}), len: len(rs), cap: len(rs)}
 			}
 			rs := []rune(cs)
 			a := &Agg{e: make([]Value, len(rs))}
@@ -1179,6 +1197,13 @@ func (x *Exec) convert(v Value, from, to types.Type) Value {
 		panic(unsupported{"integer to unsafe.Pointer"})
 	}
 	panic(unsupported{fmt.Sprintf("convert %s -> %s (%T)", from, to, v)})
+}
+
+// encodeRune runs the real utf8.AppendRune on a symbolic rune.
+func (x *Exec) encodeRune(r *Term) []*Term {
+	app := x.findFunc("unicode/utf8", "AppendRune")
+	res := x.callFunction(app, []Value{Slice{isNil: true}, r}, nil, nil).(Slice)
+	return sliceTerms(res)
 }
 
 // ---- indexing ----
